@@ -106,6 +106,7 @@ type verifRPEpochs struct {
 	// a governance change of epochs-to-save taking effect at paramChangeAt: later blocks see blocksToSaveNew
 	paramChangeAt   uint64
 	blocksToSaveNew uint64
+	current         uint64 // current epoch start (0 = 100)
 }
 
 func (m *verifRPEpochs) blocksToSaveAt(block uint64) uint64 {
@@ -123,7 +124,12 @@ func (m *verifRPEpochs) BlocksToSave(ctx sdk.Context, block uint64) (uint64, err
 	return m.blocksToSaveAt(block), nil
 }
 func (m *verifRPEpochs) BlocksToSaveRaw(ctx sdk.Context) uint64 { return m.blocksToSaveAt(100) }
-func (m *verifRPEpochs) GetEpochStart(ctx sdk.Context) uint64   { return 100 }
+func (m *verifRPEpochs) GetEpochStart(ctx sdk.Context) uint64 {
+	if m.current != 0 {
+		return m.current
+	}
+	return 100
+}
 
 type verifRPSpecs struct {
 	types.SpecKeeper
